@@ -113,6 +113,11 @@ Fixpoint bind_params (ps : list (nat * ty)) (vs : list value) : option scope :=
   end.
 
 (* expressions and statements, parameterised by the meaning of calls (callf) and the loop bound k *)
+(* the loop condition of a range: counting up while step > 0 (i < hi, or i <= hi for an inclusive range), counting down while
+   step < 0 (i > hi, or i >= hi); a zero step never runs *)
+Definition for_cond (incl : bool) (st i h : Z) : bool :=
+  ((0 <? st) && (if incl then i <=? h else i <? h)) || ((st <? 0) && (if incl then h <=? i else h <? i)).
+
 Section Exec.
 Variable structs : structs_t.
 Variable callf : nat -> list value -> list line -> res value.
@@ -238,26 +243,27 @@ Fixpoint exec (k : nat) (s : stmt) (en : env) (out : list line) {struct s} : res
              | _ => Wrong
              end)
          end) k en out
-  | SFor x t lo hi body =>
+  | SFor x t lo hi incl step body =>
       bind (eval lo en out) (fun vlo out =>
       bind (eval hi en out) (fun vhi out =>
-        match vlo, vhi with
-        | VInt t1 l, VInt t2 h =>
+      bind (eval step en out) (fun vst out =>
+        match vlo, vhi, vst with
+        | VInt t1 l, VInt t2 h, VInt t3 st =>
           (fix loop (n : nat) (i : Z) (en : env) (out : list line) {struct n} : res (env * flow) :=
              match n with
              | O => Fuel
              | S n' =>
-               if Z.ltb i h then
+               if for_cond incl st i h then
                  bind (exec k body ([(x, VInt t i)] :: en) out) (fun r out =>
                    match snd r with
                    | FBreak => Ok (tl (fst r), FNormal) out
                    | FReturn v => Ok (tl (fst r), FReturn v) out
-                   | _ => loop n' (Z.add i 1) (tl (fst r)) out
+                   | _ => loop n' (wrap t (Z.add i st)) (tl (fst r)) out
                    end)
                else Ok (en, FNormal) out
              end) k l en out
-        | _, _ => Wrong
-        end))
+        | _, _, _ => Wrong
+        end)))
   | SBreak => Ok (en, FBreak) out
   | SContinue => Ok (en, FContinue) out
   | SReturn None => Ok (en, FReturn VUnit) out
